@@ -81,12 +81,19 @@ func taskLine(t *pod_info.PodInfo) string {
 	}
 	sort.Strings(claims)
 	recv := string(t.ResourceReceivedType)
-	if (t.Status == pod_status.Pending || t.Status == pod_status.Gated) && !t.IsVirtualStatus {
+	virtual := fmt.Sprint(t.IsVirtualStatus)
+	if (t.Status == pod_status.Pending || t.Status == pod_status.Gated) && t.NodeName == "" {
 		// a pending task's device choice / received type are scratch values: every allocation
-		// attempt overwrites them before they are read
-		gs, recv = nil, ""
+		// attempt overwrites them before they are read. Its virtual flag is scratch as well: the one
+		// statement path that leaves it set on an unplaced pending task is the undo of a job's
+		// allocated-to-pipelined conversion (ConvertAllAllocatedToPipelined un-allocates with
+		// previousIsVirtualStatus=true, the pipeline operation then records that value), which the
+		// allocate action — the only caller — never discards unless the conversion itself failed; its
+		// only reader for a non-allocated task is the storage-claim predicate (CSI scheduling is off in
+		// every harness configuration). First exercised non-trivially by the dra-claims base.
+		gs, recv, virtual = nil, "", "n/a"
 	}
-	return fmt.Sprintf("%s st=%s node=%s groups=%v virtual=%v recv=%s claims=%v", t.Name, t.Status, t.NodeName, gs, t.IsVirtualStatus, recv, claims)
+	return fmt.Sprintf("%s st=%s node=%s groups=%v virtual=%s recv=%s claims=%v", t.Name, t.Status, t.NodeName, gs, virtual, recv, claims)
 }
 
 func mapStr(m map[string]int64) string {
